@@ -25,6 +25,7 @@ class H(c06.H):
         params["kinds"] = KINDS
         params["prefixes"] = False
         params["edition_guess"] = False
+        params["comma_pages"] = False  # the scenario's cases have plain numeric first pages
         super().__init__(params)
 
     def run(self):
